@@ -129,18 +129,19 @@ struct Array {
     }
 
     void operator+=(const Array &src) {
-        const SizeT n_size = (Size() + src.Size());
+        // 'src' can be this array: read its size once, and its storage after the reallocation.
+        const SizeT src_size = src.Size();
+        const SizeT n_size   = (Size() + src_size);
 
         if (n_size > Capacity()) {
             resize(n_size);
         }
 
         Type_T       *storage  = (Storage() + Size());
-
-        index_ += src.Size();
-
         const Type_T *src_item = src.First();
-        const Type_T *src_end  = (src_item + src.Size());
+        const Type_T *src_end  = (src_item + src_size);
+
+        index_ += src_size;
 
         while (src_item < src_end) {
             Memory::Initialize(storage, *src_item);
